@@ -9,12 +9,16 @@
 
 use reccore::{
     explore::{enumerate, run_path, Family, PathSpec},
-    Ctor, Form,
+    Ctor, Form, Placement,
 };
 
 fn miri_safe(spec: &PathSpec) -> bool {
     match spec {
-        PathSpec::Life { ctor, fill, forms, .. } => (!ctor.is_uninit() || *fill) && forms.iter().all(|f| matches!(f, Form::Full | Form::FullOut)),
+        // the bystander record of the Vec placement is built by the same constructor and is
+        // never filled: with an `*Uninit` constructor its `Drop` would read uninitialised fields
+        PathSpec::Life { ctor, fill, forms, place, .. } => {
+            (!ctor.is_uninit() || (*fill && *place != Placement::InVec)) && forms.iter().all(|f| matches!(f, Form::Full | Form::FullOut))
+        }
         PathSpec::Writes { ctor, ops, .. } => !ctor.is_uninit() && ops.len() <= 1,
         PathSpec::Clone { ctor, .. } => !matches!(ctor, Ctor::FromUninit),
         PathSpec::Serde { .. } => true,
@@ -22,8 +26,10 @@ fn miri_safe(spec: &PathSpec) -> bool {
 }
 
 fn main() {
+    vcommon::quiet_panics();
     let prop = std::env::args().nth(1).unwrap_or_else(|| "C07".to_owned());
     let stride: usize = std::env::args().nth(2).and_then(|s| s.parse().ok()).unwrap_or(1);
+    let offset: usize = std::env::args().nth(3).and_then(|s| s.parse().ok()).unwrap_or(0);
     let defs = shardm::registry();
     let (mut paths, mut ops, mut bad) = (0u64, 0u64, 0u64);
     for d in &defs {
@@ -34,7 +40,7 @@ fn main() {
             for fam in [Family::Life, Family::Writes, Family::Clone, Family::Serde] {
                 let all = enumerate(&meta, fam);
                 for (pi, spec) in all.iter().enumerate() {
-                    if !miri_safe(spec) || pi % stride != 0 {
+                    if !miri_safe(spec) || pi % stride != offset {
                         continue;
                     }
                     println!("PATH {} cap+{} {:?}#{} {:?}", d.name, reccore::CAP_EXTRA[ci], fam, pi, spec);
